@@ -5,18 +5,19 @@ package verifspec
 // Contracts for the slice / string runtime of compiler/prelude (properties C07, C08, C14).
 // A slice is a record {$array, $offset, $length, $capacity} with 0 <= $length <= $capacity, $offset + $capacity <= $array.length.
 
-// Go: s[low:high] on a string panics unless 0 <= low <= high <= len(s).
+//@ pure hi(undefHigh bool, high int, length int) int = undefHigh ? length : high
+// Go: s[low:high] on a string panics unless 0 <= low <= high <= len(s); s[low:] is s[low:len(s)] (the translator then
+// passes two arguments: high is undefined).
 //@ js prelude.js $substring
 //@ property C08 C14
-//@   param str: str, low: int32, high: int32
-//@   throws_if !(0 <= low && low <= high && high <= len(str))
+//@   param str: str, low: int32, high: opt int32
+//@   throws_if !(0 <= low && low <= hi(high$undef, high, len(str)) && hi(high$undef, high, len(str)) <= len(str))
 //@   throws_msg slice bounds out of range
 //@   returns str
-//@   ensures len(result) == high - low && forall(k, 0, high - low, result[k] == str[low + k])
+//@   ensures len(result) == hi(high$undef, high, len(str)) - low && forall(k, 0, hi(high$undef, high, len(str)) - low, result[k] == str[low + k])
 
 // Go: s[low:high:max] panics unless 0 <= low <= high <= max <= cap(s) (defaults: high = len(s), max = cap(s)); the
 // result shares the array, starts low elements later, and has length high-low and capacity max-low; nil stays nil.
-//@ pure hi(undefHigh bool, high int, length int) int = undefHigh ? length : high
 //@ js prelude.js $subslice
 //@ property C07 C08
 //@   param slice: slice, low: int32, high: opt int32, max: opt int32
